@@ -230,11 +230,14 @@ type Ctx struct {
 	hist       map[string]map[string]int
 	failures   []Failure
 	nfail      int
+	nviolKept  int
 	samples    []map[string]interface{}
 	kernel     [][2][]int64
 	notes      []string
 	exhaustive bool
 	models     chan *Model
+	shard      int
+	nshards    int
 }
 
 type T struct {
@@ -278,6 +281,9 @@ func (c *Ctx) Each(n int, f func(i int, t *T)) {
 		}()
 	}
 	for i := 0; i < n; i++ {
+		if c.nshards > 1 && i%c.nshards != c.shard {
+			continue
+		}
 		idx <- i
 	}
 	close(idx)
@@ -364,8 +370,11 @@ func (t *T) Try(family string, in []int64, nontrivial bool) bool {
 	}
 	if f != nil {
 		c.nfail++
-		if len(c.failures) < 40 {
-			f.Family = family
+		f.Family = family
+		if f.Class == "viol" && c.nviolKept < 20 {
+			c.nviolKept++
+			c.failures = append([]Failure{*f}, c.failures...) // concrete violations first
+		} else if len(c.failures) < 40 {
 			c.failures = append(c.failures, *f)
 		}
 	}
@@ -456,6 +465,9 @@ func main() {
 	flag.StringVar(&kernelOut, "kernel", "", "write a Coq file re-evaluating a sample of cases inside the kernel")
 	flag.Int64Var(&seed, "seed", 1, "seed")
 	flag.IntVar(&workers, "workers", runtime.NumCPU(), "parallel workers")
+	var shard, nshards int
+	flag.IntVar(&shard, "shard", 0, "this process handles the indices i with i mod nshards = shard")
+	flag.IntVar(&nshards, "nshards", 1, "number of shard processes")
 	flag.Parse()
 	if flag.NArg() < 1 {
 		fmt.Fprintln(os.Stderr, "usage: harness [flags] Cnn")
@@ -470,7 +482,7 @@ func main() {
 		workers = 1
 	}
 	c := &Ctx{P: p, Tier: tier, Seed: seed, Driver: driver, Workers: workers,
-		distinct: map[[20]byte]bool{}, hist: map[string]map[string]int{}, models: make(chan *Model, workers)}
+		distinct: map[[20]byte]bool{}, hist: map[string]map[string]int{}, models: make(chan *Model, workers), shard: shard, nshards: nshards}
 	for i := 0; i < workers; i++ {
 		c.models <- StartModel(driver)
 	}
